@@ -4,6 +4,7 @@ from props.m1common import g, sp, sx, rng_for, is_err, compare_result, shrink_tr
 
 PID = "C05"
 RUNNER = "impl_m1.py"
+VM_CROSSCHECK = True
 N = {"quick": 2000, "thorough": 80000}
 LEVEL_RULE = ("receivers: random sequences (depth <= 4, zero-length leaves, empty containers, nested simultaneities) and "
               "simultaneities whose voices are sequences or again simultaneities of sequences (unequal lengths); inserted event: leaf, "
